@@ -175,4 +175,14 @@ example : Feasible xT xQ :=
       have : j = 0 ∨ j = 1 ∨ j = 2 ∨ j = 3 := by omega
       rcases this with rfl | rfl | rfl | rfl <;> decide +kernel⟩
 
+/-- (review R2) the remaining hypotheses of `eg_expected_rates` / `eg_dp_difference_le`: both groups are observed for the
+    single event of demographic parity, `B = 10 > 0`; together with the examples above ALL hypotheses of the three
+    composition theorems hold simultaneously for `xT`, `xQ`, `xLam`, `Q' = xQ`, `g = 0`, and the conclusion is TIGHT:
+    the slack is `eps + (1 + 2·0)/10 = 1/5` and the between-groups difference of the mixture is exactly `1/5`. -/
+example : Observed (eventOf .dp) xRows "all" "a" ∧ Observed (eventOf .dp) xRows "all" "b" :=
+  ⟨⟨⟨1, "a", none⟩, by decide +kernel, by decide +kernel, rfl⟩, ⟨⟨1, "b", none⟩, by decide +kernel, by decide +kernel, rfl⟩⟩
+example : (1 / 10 : Rat) + (1 + 2 * 0) / 10 = 1 / 5 ∧ (0 : Rat) < 10 ∧ trueGap xT 10 xQ xLam ≤ 0 := by
+  refine ⟨by norm_num, by norm_num, ?_⟩
+  decide +kernel
+
 end C08
